@@ -15,7 +15,8 @@ RULE = (
     "triples (t bound to T, s bound to S, candidate x) drawn from a pool of trees over tuple/list/dict/None "
     "(quick: all triples over a 12-tree pool; thorough: 24-tree pool + random depth-4 trees) x the forms "
     "'T', 'S T', 'T S', 'T ...', '... T', 'S T ...', '... S T', 'T T'; unbound names in composites; all "
-    "structure strings of <=4 pieces over {T, S, ..., 1x, a.b} with whitespace variants at build time; "
+    "leaf types whose check rolls the context back inside the leaf loop (unions of array annotations) x pairs "
+    "of trees x four forms; structure strings of <=4 pieces over {T, S, ..., 1x, a.b} with whitespace variants at build time; "
     "non-trivial = the candidate is neither identical to t nor a bare leaf; distinct by (t, s, x, form)"
 )
 TRUSTED = [
@@ -44,6 +45,10 @@ def as_violation(got, want):
     if gv != wv:
         k = next(i for i, (a, b) in enumerate(zip(gv, wv)) if a != b)
         return (f"structure:{wv[k]}->{gv[k]}", f"a structure check answers {gv[k]} where the documented meaning requires {wv[k]}")
+    gb = [o["m"]["struct"] for o in got if o["o"] == "bindings"]
+    wb = [o["m"]["struct"] for o in want if o["o"] == "bindings"]
+    if gb != wb:
+        return ("structure-bindings", f"the structure names bound are {gb} but must be {wb}")
     return None
 
 
@@ -67,6 +72,34 @@ def run(tier, seed, out, drv, facts):
         out.case((json.dumps(t), json.dumps(s), json.dumps(x)), x != t and x["t"] != "int", sample={"T": t, "S": s, "x": x, "verdicts": dict(zip(["T", "S"] + FORMS, progcheck.verdicts(got)))})
         for f, v in zip(FORMS, progcheck.verdicts(got)[2:]):
             out.count(f"{f}:{v}")
+    # leaf types whose check rolls the context back in the middle of the leaf loop (a Union of array
+    # annotations whose first alternative fails on a matrix leaf, a structure-less PyTree of such): binding
+    # and comparing the structure name must not depend on what the leaf checks do to the context
+    U = {"t": "union", "ts": [gen_prog.arr_type("n"), gen_prog.arr_type("n m")]}
+    leaf_types = [("Union[arr n, arr n m]", U), ("PyTree[Union[...]]", {"t": "pytree", "l": U, "s": None}),
+                  ("Union[int, arr n m]", {"t": "union", "ts": [INT, gen_prog.arr_type("n m")]})]
+
+    def with_arrays(tree, k=[0]):
+        if tree["t"] == "int":
+            k[0] += 1
+            return gen_prog.arr_val([3, 2]) if k[0] % 3 else gen_prog.arr_val([3])
+        if "xs" in tree:
+            return dict(tree, xs=[with_arrays(c, k) for c in tree["xs"]])
+        if "vals" in tree:
+            return dict(tree, vals=[with_arrays(c, k) for c in tree["vals"]])
+        return tree
+
+    small = [t for t in trees[:10] if t["t"] != "int"]
+    for lname, lt in leaf_types:
+        for t, x in itertools.product(small, repeat=2):
+            ta, xa = with_arrays(t), with_arrays(x)
+            body = [{"op": "check", "l": {"t": "pytree", "l": lt, "s": "T"}, "x": ta}, {"op": "print"}]
+            for form in ("T", "T ...", "... T", "T T"):
+                body.append({"op": "check", "l": {"t": "pytree", "l": lt, "s": form}, "x": xa})
+            body.append({"op": "print"})
+            prog = [{"op": "ctx", "body": body, "exit": "ret"}]
+            got, want = progcheck.compare_program(out, drv, facts, prog, "rollback-leaf", rng=rng, as_violation=as_violation, shrink=False)
+            out.case(("rollback-leaf", lname, json.dumps(t), json.dumps(x)), True, sample={"leaf_type": lname, "T": ta, "x": xa, "verdicts": progcheck.verdicts(got)})
     # unbound names inside composites, and None at top level
     for form in ["S T", "T S", "T ...", "... T", "U", "T U", "... U"]:
         for bind_t in (True, False):
